@@ -353,6 +353,31 @@ def work_ssh1_shapes(chunk, st):
     st.sample({'ssh1_shapes': [list(x) for x in chunk[:2]]}, cap=4)
 
 
+# ---- many targets whose first handshake is complete and whose probe connections all stall, queued behind each other on one or two
+# workers: the run lasts many timeouts (virtual minutes), ends through a documented status, and every target has its complete report
+def work_queued_stalls(chunk, st):
+    from props import multitarget as MT
+    for n, threads, fmt in chunk:
+        res, _s = MT.run_multi(['PROBESSILENT'] * n, threads, fmt, (), ('connect',))
+        root = ('queued-stalls', n, threads, fmt)
+        st.execution(res.world, outcome=('queued-stalls', res.status), root=root, nontrivial=root)
+        d = {'targets': n, 'threads': threads, 'fmt': fmt, 'status': res.status, 'virtual_seconds': round(res.clock, 1)}
+        if res.hang or res.exc or res.status not in (2, 3):
+            st.violation('queued-stalling-targets:no-documented-end', dict(d, hang=res.hang, exc=res.exc, tail=(res.stdout + res.stderr)[-300:]))
+            continue
+        if fmt == 'json':
+            try:
+                doc = json.loads(res.stdout)
+                got = sum(1 for e in doc if isinstance(e, dict) and e.get('enc'))
+            except ValueError:
+                got = -1
+        else:
+            got = res.stdout.count('(enc) 3des-cbc')
+        if got != n:
+            st.violation('queued-stalling-targets:reports-missing', dict(d, complete_reports=got))
+    st.sample({'queued_stalls': [list(x) for x in chunk[:2]]}, cap=4)
+
+
 def run(tier, seed):
     t0 = time.time()
     st = evidence.Stats()
@@ -393,6 +418,7 @@ def run(tier, seed):
     # one probe connection goes wrong in one of 19 ways, on every probe connection of four servers: the audit still ends with a report
     from props import faultinv as _FI
     par.pmap(_FI.work, _FI.tasks(), extra=(('unaffected',),), stats=st, chunk=6)
+    par.pmap(work_queued_stalls, [(n, th, f) for n, th in ((4, 1), (40, 1), (70, 1), (140, 2)) for f in ('text', 'json')], stats=st, chunk=1)
     par.pmap(work_ssh1_shapes, [(hb, sb, am, f) for hb in range(1024, 1096, 8) for sb in (768, 776) for am in (0x0c, 0, 0x100, 0x2c00) for f in ('text', 'json')], stats=st, chunk=8)
     st.extra['reply_mutations'] = len(muts)
     # replay determinism: the same plan must give the same observation when executed again (and again after other executions)
